@@ -10,7 +10,8 @@ is an index into the list of items, the statement pointer is (line index, operat
 Program (lines form)
 --------------------
     prog = {'lines': [[number, [stmt, ...]], ...],      # ascending line numbers
-            'direct': [stmt, ...] or None}              # a direct-mode line executed INSTEAD of RUN
+            'direct': [stmt, ...] or None,              # a direct-mode line executed INSTEAD of RUN
+            'after': [[stmt, ...], ...] or None}        # direct-mode lines typed AFTER the run has stopped
     stmt (lists, first element is the kind):
       ['print', tag, [item, ...]]     PRINT "tag";item;item   item = expr | ['s', 'A$'] (printed as "[";A$;"]")
       ['let', target, expr]           target = 'I%' | ['arr', 'A%', expr]
@@ -132,6 +133,12 @@ class Machine(object):
             self._compile(stmts, ops)
             self.lines.append((num, ops))
             self.index[num] = li
+        self.after = []
+        for stmts in prog.get('after') or []:
+            ops = []
+            self._compile(stmts, ops)
+            self.after.append(ops)
+        self.after_idx = 0
         self.direct = None
         if prog.get('direct'):
             ops = []
@@ -366,16 +373,25 @@ class Machine(object):
 
     # -- run -----------------------------------------------------------------------------------------
     def run(self, max_steps=None, until_len=None):
-        """Run until the program ends, max_steps more steps were made or the output is longer than until_len."""
+        """Run until the program ends, max_steps more steps were made or the output is longer than until_len.
+        prog['after'] (direct-mode lines typed after the run has stopped, variables and DATA pointer kept) follow."""
         n = 0
-        while self.done is None:
-            if max_steps is not None and n >= max_steps:
-                break
-            if until_len is not None and len(self.out) > until_len:
-                break
-            self.step()
-            n += 1
-        return self
+        while True:
+            while self.done is None:
+                if max_steps is not None and n >= max_steps:
+                    return self
+                if until_len is not None and len(self.out) > until_len:
+                    return self
+                self.step()
+                n += 1
+            if self.after_idx >= len(self.after):
+                return self
+            # the next direct-mode line
+            self.direct = self.after[self.after_idx]
+            self.after_idx += 1
+            self.pc = (-1, 0)
+            self.done = None
+            self.in_handler = False
 
     def step(self):
         self._normalise_pc()
@@ -801,7 +817,9 @@ class Machine(object):
             self._ev('restore')
         else:
             if n not in self.index:
-                raise Unpinned('RESTORE to a missing line')
+                # Undefined line number; a RESTORE that fails leaves the pointer where it was
+                self._ev('restore:missing-line')
+                raise BasicError(8)
             self.dptr = len(self.data)
             for i, item in enumerate(self.data):
                 if item[0] >= n:
